@@ -9,7 +9,7 @@ import sys
 from carbon.util import TaggedSeries
 
 NAMES = ['n', 'm.x', '~n', 'n{', 'a b', 'n=', 'x,y']
-KEYS = ['a', 'b', 'name', 'k{x', 't!', 'q^', 'e=', 's;', '', 'k"', 'c,d', 'k}']
+KEYS = ['a', 'A', 'b', 'ab', 'name', 'k{x', 't!', 'q^', 'e=', 's;', '', 'k"', 'c,d', 'k}']
 VALUES = ['1', 'v', '~v', 'x;y', '"q"', 'a,b', 'c\\d', '{z}', 'v"}', '', 'w=1', 'p!']
 
 
